@@ -83,9 +83,14 @@ pub fn topic_filter(rng: &mut Rng, b: &mut Budget) -> TopicFilter {
         s.push_str(*rng.pick(&["$sharex/", "$shared/", "$share你/", "$SHARE/", "$shar/", "$share", "$sharé/g/"]));
     } else if rng.chance(1, 4) {
         s.push_str("$share/");
-        let gl = rng.range(1, 5) as usize;
-        let g = text_of_len(rng, gl, &["g", "é", "你", "x", "-"]);
-        s.push_str(&g);
+        if rng.chance(1, 8) {
+            // a share group that itself looks like a prefix ("$share/$share/t" is a legal shared filter)
+            s.push_str(*rng.pick(&["$share", "$SYS", "$", "$shar"]));
+        } else {
+            let gl = rng.range(1, 5) as usize;
+            let g = text_of_len(rng, gl, &["g", "é", "你", "x", "-"]);
+            s.push_str(&g);
+        }
         s.push('/');
     }
     let levels = rng.range(1, 5);
